@@ -24,7 +24,7 @@ ID = "C14"
 LEVEL = "exploration"
 SEGMENT_TIMEOUT = 180
 TIERS = {
-    "quick": dict(plans=90, budget_s=75, worlds=15, det_plans=2, hashseeds=8),
+    "quick": dict(plans=70, budget_s=60, worlds=15, det_plans=2, hashseeds=8),
     "thorough": dict(plans=6000, budget_s=1200, worlds=80, det_plans=12, hashseeds=256,
                      always_selftest=True),
 }
